@@ -153,3 +153,23 @@ def install(eng: Any) -> None:
     fm[vars(R)["read_string"]] = r_string
     fm[vars(W)["write_offset"]] = w_offset
     fm[vars(R)["read_offset"]] = r_offset
+
+
+def install_any_stream(eng: Any) -> None:
+    """Contract of a byte stream's read(1) (assumption A7): if bytes are left, one arbitrary byte 0..255 and the ghost
+    counter `left` decreases by one; otherwise the empty bytes object."""
+    from harness.tzio import AnyStream
+    from pyvc.models import SBytes
+
+    def read(eng: Any, self_: Any, n: Any = -1) -> Any:
+        if sym.is_sym(n) or n != 1:
+            raise Unsupported("AnyStream.read(n) is only specified for n == 1")
+        left = self_.fields["left"]
+        if eng.truth(left > 0):
+            b = sym.fresh_int("byte")
+            eng.assume(And(b >= 0, b <= 255))
+            eng.set_field(self_, "left", left - 1)
+            return SBytes([b])
+        return b""
+
+    eng.func_models[vars(AnyStream)["read"]] = read
